@@ -362,6 +362,8 @@ def describe(family, p, x):
             d[attr.lstrip('_')] = numpy.asarray(v, dtype=float).tolist()
     if hasattr(p, 'successive'):
         d['successive'] = dict(p.successive)
+    if hasattr(p, 'isradec'):
+        d['radec'], d['degs'] = bool(p.isradec), bool(p.isdegs)
     return d
 
 
@@ -840,12 +842,29 @@ def history_with_adaptation(family, seed, pattern, nparams, findings, stats):
 # configurations
 # --------------------------------------------------------------------------
 
+CONVENTIONS = [(False, False), (False, True), (True, False), (True, True)]      # (radec, degs)
+
+
 def build(family, rng, nparams, adapt_steps=0, pattern='AR', successive=None, seed=7, same_bounds=False,
-          offset=0.0):
+          offset=0.0, conv=None):
     """A real proposal instance (adaptive ones after `adapt_steps` real forced steps) together
     with its parameter names and domains."""
     cls, kind, lo, hi = F.FAMILIES[family]
     n = max(lo, min(hi, nparams))
+    if family in SPHERE and conv is not None:
+        # the angle convention (radec, degs) travels as the "domain" of both parameters: families.make
+        # passes it to the constructor, families.start_value / point() express points in it
+        conv = (bool(conv[0]), bool(conv[1]))
+        names = ['x0', 'x1']
+        doms = {nm: conv for nm in names}
+        if family in F.ADAPTIVE and adapt_steps > 0:
+            start = {nm: F.start_value(kind, conv, rng, i) for i, nm in enumerate(names)}
+            ch, prop = _hchain(family, names, doms, rng.randrange(1 << 30), pattern=pattern,
+                               window=max(adapt_steps + 3, 6), start=start)
+            for _ in range(adapt_steps):
+                ch.step()
+            return copy.deepcopy(prop), names, doms, kind
+        return F.make(family, names, doms, rng), names, doms, kind
     if family in F.ADAPTIVE and adapt_steps > 0:
         ch, prop, model = forcing.make_chain(family, rng, pattern=pattern, nparams=n,
                                              window=max(adapt_steps + 3, 6), seed=seed)
@@ -1309,7 +1328,19 @@ def from_cart(p, v):
 
 def sphere_law(family, p0, x, m, findings, stats, ncap=10, nsec=4, which=0):
     """von Mises-Fisher: masses of caps around the from-point and of cap x sector cells against
-    the integral of the reported pdf with respect to solid angle."""
+    the integral of the reported pdf with respect to solid angle.
+
+    Conventions (radec, degs): points go in and come out in the proposal's own coordinates; the
+    harness's own `to_cart` / `from_cart` translate them.  The comparison is made on *geometric*
+    regions (caps and cap x sector cells about the from-point): the jump law gives their mass by
+    counting, the reported pdf by integration in the frame (c = cos of the distance, a = azimuth about
+    the from-point), where the solid-angle element is exactly dc da, evaluating the pdf at the
+    convention coordinates of each node.  So no Jacobian is fitted: per coordinate cell the element is
+    sin(theta) dtheta dphi in radians, cos(dec) ddec dra for declinations, times (pi/180)^2 in degrees,
+    and none of them enters because the nodes are laid out in (c, a), not in the coordinates.  A
+    reported density per square degree instead of per steradian would show as the constant
+    (pi/180)^2 in the normaliser note; what is *required* is that the constant is the same from
+    every from-point and that the shape is the law of the jumps."""
     names = list(p0.parameters)
     mu = to_cart(p0, x[names[0]], x[names[1]])
     # an orthonormal frame at mu, built here
@@ -1324,12 +1355,24 @@ def sphere_law(family, p0, x, m, findings, stats, ncap=10, nsec=4, which=0):
     cosd = numpy.empty(N)
     azim = numpy.empty(N)
     k = 0
+    # the ranges the convention defines its coordinates on: azimuth [0, 2 pi) / [0, 360); polar angle
+    # [0, pi] / [0, 180], as a declination shifted down by a quarter turn
+    unit_ = 180.0 / math.pi if p0.isdegs else 1.0
+    az_period = TWO_PI * unit_
+    pol_lo = (-math.pi / 2 if p0.isradec else 0.0) * unit_
+    pol_hi = (math.pi / 2 if p0.isradec else math.pi) * unit_
+    pol_slack = 1e-12 * 180.0
+    out_of_range = None
     while True:
         try:
             out = p.jump(x)
         except Exhausted:
             break
-        v = to_cart(p0, float(out[names[0]]), float(out[names[1]]))
+        o0, o1 = float(out[names[0]]), float(out[names[1]])
+        if not (0.0 <= o0 <= az_period * (1 + 1e-12) and pol_lo - pol_slack <= o1 <= pol_hi + pol_slack) \
+                and out_of_range is None:
+            out_of_range = (o0, o1)
+        v = to_cart(p0, o0, o1)
         cosd[k] = float(v @ mu)
         azim[k] = math.atan2(float(v @ e2), float(v @ e1)) % TWO_PI
         k += 1
@@ -1339,6 +1382,16 @@ def sphere_law(family, p0, x, m, findings, stats, ncap=10, nsec=4, which=0):
         findings.append(('%s:nonfinite' % family, '%s: jump from %r produced a non-finite point' % (family, x),
                          dict(describe(family, p0, x), kind='nonfinite')))
         return None
+    stats['sphere_convention:radec=%d,degs=%d' % (p0.isradec, p0.isdegs)] = \
+        stats.get('sphere_convention:radec=%d,degs=%d' % (p0.isradec, p0.isdegs), 0) + 1
+    if out_of_range is not None:
+        findings.append(('%s:coordinate-range' % family,
+                         '%s (radec=%r, degs=%r) from %r: jump returned (%r, %r); the convention puts the azimuth in '
+                         '[0, %.6g) and the polar coordinate in [%.6g, %.6g]' % (
+                             family, p0.isradec, p0.isdegs, x, out_of_range[0], out_of_range[1], az_period, pol_lo,
+                             pol_hi),
+                         dict(describe(family, p0, x), kind='coordinate-range', radec=bool(p0.isradec),
+                              degs=bool(p0.isdegs), returned=list(out_of_range))))
     # kept for the decision about symmetric families: distance law and isotropy of the jump law itself
     _note_disp(p0, stats, ('sphere',), which, cosd[:k])
     secs = [float(((azim[:k] >= s_ * TWO_PI / 8) & (azim[:k] < (s_ + 1) * TWO_PI / 8)).sum()) / N for s_ in range(8)]
@@ -1579,6 +1632,7 @@ HIST_GROUP = {
     'set-state-fresh': 'set-state', 'set-state-adapted': 'set-state',
     'setter-std': 'setter', 'setter-cov': 'setter', 'setter-boundaries': 'setter', 'setter-kappa': 'setter',
     'setter-successive': 'setter', 'setter-eigen': 'setter', 'setter-cov-eigen': 'setter',
+    'setter-convention': 'setter',
     'jump-interval': 'jump-interval', 'pickle': 'copy', 'deepcopy': 'copy',
     'interleaved-queries': None,       # named after the step that preceded the mismatch, see OP_GROUP
 }
@@ -1603,7 +1657,7 @@ def history_kinds(fam):
     if fam in EIGEN:
         ks += ['setter-eigen', 'setter-cov-eigen']
     if fam in SPHERE:
-        ks += ['setter-kappa']
+        ks += ['setter-kappa', 'setter-convention']
     ks += ['jump-interval', 'pickle', 'deepcopy', 'interleaved-queries']
     return ks
 
@@ -1677,6 +1731,8 @@ def _settings(p):
         out['successive'] = {k: bool(v) for k, v in p.successive.items()}
     if getattr(p, '_jump_interval', 1) not in (1, None):
         out['jump_interval'] = int(p.jump_interval)
+    if hasattr(p, 'isradec'):
+        out['radec'], out['degs'] = bool(p.isradec), bool(p.isdegs)
     return out
 
 
@@ -1749,13 +1805,21 @@ def _warm(fam, p, kind):
                 pass
 
 
-def build_history(fam, hist, rng, nparams):
+def _start_doms(fam, kind, names, rng, conv):
+    doms = {p: F.domain_for(kind, rng, i) for i, p in enumerate(names)}
+    if fam in SPHERE:
+        # the angle convention (radec, degs) travels as the "domain" of both parameters
+        doms = {p: (bool((conv or (0, 0))[0]), bool((conv or (0, 0))[1])) for p in names}
+    return doms
+
+
+def build_history(fam, hist, rng, nparams, conv=None):
     """Bring a real proposal of `fam` into the state at the end of history `hist`.
     Returns dict(R=object under test, T=twin or None, steps=[text], names, kind, doms) or None."""
     cls, kind, lo, hi = F.FAMILIES[fam]
     n = max(lo, min(hi, nparams))
     names = ['x%d' % i for i in range(n)]
-    doms = {p: F.domain_for(kind, rng, i) for i, p in enumerate(names)}
+    doms = _start_doms(fam, kind, names, rng, conv)
     start = {p: F.start_value(kind, doms[p], rng, i if kind == 'sphere' else 0) for i, p in enumerate(names)}
     adaptive = fam in F.ADAPTIVE
     carries = adaptive or fam in EIGEN               # the state dictionary carries settings
@@ -1915,6 +1979,22 @@ def build_history(fam, hist, rng, nparams):
             said('twin: constructor call with kappa=%r' % kap)
         R.kappa = kap
         said('.kappa = %r' % kap)
+    elif hist == 'setter-convention':
+        if adaptive:
+            ch, R = adapted()
+            said('%d forced chain steps, pattern %s -> kappa %r' % (k1, pat, float(R.kappa)))
+        else:
+            R = fresh()[1]
+        old_conv = doms[names[0]]
+        new_conv = rng.choice([c for c in CONVENTIONS if c != old_conv])
+        R.isradec, R.isdegs = new_conv
+        said('.isradec, .isdegs = %r (built with %r)' % (new_conv, old_conv))
+        doms = {p: new_conv for p in names}
+        T = fresh(doms_=doms)[1]
+        if adaptive:
+            T.set_state(R.state)
+        said('twin: the same constructor call with radec=%r, degs=%r' % new_conv +
+             (', .set_state(state of the object)' if adaptive else ''))
     elif hist == 'setter-successive':
         if adaptive:
             ch, R = adapted()
@@ -2098,7 +2178,7 @@ def twin_check(fam, H, x, pairs, rng, findings, stats):
                           jumps_same=bool(jumps_same), density=None if bad is None else [str(bad[1]), str(bad[2])])))
 
 
-def jump_interval_walk(fam, rng, nparams, N, nodes, findings, stats, steps):
+def jump_interval_walk(fam, rng, nparams, N, nodes, findings, stats, steps, conv=None):
     """jump_interval > 1: on the iterations in between, jump() returns the point it was given and
     logpdf() reports 0; both decide that from the step counter.  Walk a real chain through the
     whole schedule; at every iteration the two must agree (no draw made <=> log density exactly 0
@@ -2107,7 +2187,7 @@ def jump_interval_walk(fam, rng, nparams, N, nodes, findings, stats, steps):
     cls, kind, lo, hi = F.FAMILIES[fam]
     n = max(lo, min(hi, nparams))
     names = ['x%d' % i for i in range(n)]
-    doms = {p: F.domain_for(kind, rng, i) for i, p in enumerate(names)}
+    doms = _start_doms(fam, kind, names, rng, conv)
     start = {p: F.start_value(kind, doms[p], rng, i if kind == 'sphere' else 0) for i, p in enumerate(names)}
     s0 = rng.randrange(1 << 30)
     k = rng.choice([2, 3])
@@ -2224,9 +2304,10 @@ def settings_history_unit(unit, findings, stats):
     steps = []
     mine = []
     if hist == 'jump-interval':
-        H = jump_interval_walk(fam, rng, unit['nparams'], unit['N'], unit.get('nodes', (16, 16)), mine, stats, steps)
+        H = jump_interval_walk(fam, rng, unit['nparams'], unit['N'], unit.get('nodes', (16, 16)), mine, stats, steps,
+                               conv=unit.get('conv'))
     else:
-        H = build_history(fam, hist, rng, unit['nparams'])
+        H = build_history(fam, hist, rng, unit['nparams'], conv=unit.get('conv'))
     R, names, kind = H['R'], H['names'], H['kind']
     law, x, pairs = _history_law(fam, R, kind, names, H['doms'], rng, unit, stats)
     mine.extend(law)
@@ -2295,7 +2376,7 @@ def _twin_now(fam, R, ctx):
         if ctx.get('full') is not None:
             return cls(names, cov=ctx['full'].copy())
         return _with_cov(fam, names, ctx['doms'], ctx['var'], succ)
-    return cls(names[0], names[1], kappa=ctx['kappa'])
+    return cls(names[0], names[1], kappa=ctx['kappa'], radec=ctx['doms'][names[0]][0], degs=ctx['doms'][names[0]][1])
 
 
 def interleaved_unit(unit, findings, stats):
@@ -2304,7 +2385,7 @@ def interleaved_unit(unit, findings, stats):
     cls, kind, lo, hi = F.FAMILIES[fam]
     n = max(lo, min(hi, unit['nparams']))
     names = ['x%d' % i for i in range(n)]
-    doms = {p: F.domain_for(kind, rng, i) for i, p in enumerate(names)}
+    doms = _start_doms(fam, kind, names, rng, unit.get('conv'))
     start = {p: F.start_value(kind, doms[p], rng, i if kind == 'sphere' else 0) for i, p in enumerate(names)}
     adaptive = fam in F.ADAPTIVE
     seed = rng.randrange(1 << 30)
@@ -2321,7 +2402,7 @@ def interleaved_unit(unit, findings, stats):
         R = _with_cov(fam, names, doms, ctx['var'], succ)
     elif not adaptive and fam in SPHERE:
         ctx['kappa'] = float(round(rng.uniform(2, 30), 3))
-        R = cls(names[0], names[1], kappa=ctx['kappa'])
+        R = cls(names[0], names[1], kappa=ctx['kappa'], radec=doms[names[0]][0], degs=doms[names[0]][1])
     else:
         R = F.make(fam, names, doms, random.Random(seed), window=window)
     ch = Chain(names, forcing.ForcedModel(pat), [R], bit_generator=seed % 100003 + 11)
@@ -2550,7 +2631,7 @@ def run_unit(unit):
                 p0, names, doms, kind = build(fam, rng, unit['nparams'], unit.get('adapt_steps', 0),
                                               unit.get('pattern', 'AR'), unit.get('successive'),
                                               seed=unit['seed'] % 997 + 5, same_bounds=unit.get('same_bounds', False),
-                                              offset=unit.get('offset', 0.0))
+                                              offset=unit.get('offset', 0.0), conv=unit.get('conv'))
                 x = point(kind, doms, names, rng, unit.get('where', 'inside'))
                 if fam in PERPARAM:
                     cx = perparam_law(fam, p0, x, unit['N'], findings, stats, {'which': 0})
@@ -2573,8 +2654,9 @@ def run_unit(unit):
                                     cells=cells, per=per, which=1)
                     eigen_normalisers(fam, p0, x, y, cs, cs2, findings, stats)
                 elif fam in SPHERE:
-                    if unit.get('where') == 'lower':
-                        x = {names[0]: x[names[0]], names[1]: 1e-3}      # next to the pole
+                    if unit.get('where') == 'lower':                     # next to the pole
+                        x = {names[0]: x[names[0]], names[1]: from_cart(p0, numpy.array([math.sin(1e-3), 0.0,
+                                                                                         math.cos(1e-3)]))[1]}
                     cx = sphere_law(fam, p0, x, unit['m'], findings, stats)
                     y = point(kind, doms, names, rng)
                     cy = sphere_law(fam, p0, y, unit['m'], findings, stats, which=1)
@@ -2685,6 +2767,7 @@ def plan_units(seed, tier, full=False):
                     u['every'] = 15 if quick else 60
                     u['nodes'] = (16, 8) if quick else (32, 16)
             if fam in SPHERE:
+                u['conv'] = list(CONVENTIONS[(j + seed) % 4])     # (radec, degs): all four, whatever the seed
                 u['m'] = 14 if N <= 20000 else 18
                 if N < 20000:
                     u['m'] = 11
@@ -2724,7 +2807,7 @@ def plan_history_units(seed, quick):
         for hi_, hist in enumerate(history_kinds(fam)):
             for rep in range(1 if quick else 4):
                 u = dict(kind='settings-history', family=fam, hist=hist, seed=rng.randrange(1 << 30),
-                         N=1000 if quick else 20000, nparams=lo + ((fi + hi_ + rep + seed) % (hi - lo + 1)),
+                         N=800 if quick else 20000, nparams=lo + ((fi + hi_ + rep + seed) % (hi - lo + 1)),
                          nodes=(16, 8) if quick else (32, 16))
                 if fam in EIGEN:
                     u['every'] = 15 if quick else 40
@@ -2737,6 +2820,7 @@ def plan_history_units(seed, quick):
                 if fam in SPHERE:
                     u['m'] = 10 if quick else 14
                     u['caps'] = (6, 2) if quick else (10, 4)
+                    u['conv'] = list(CONVENTIONS[(hi_ + rep + seed) % 4])   # (radec, degs): the kinds go round
                 units.append(u)
     return units
 
